@@ -601,6 +601,38 @@ fn shapes(m: &Model, ctx: &mut Ctx) {
             }
         }
     }
+    // an extension addition group `[[ b T, c U OPTIONAL ]]` arrives as one synthetic member named with the group prefix
+    // (Required in the IR; the rasn backend makes it Option<Group>): a value of an earlier version has no such group at all, so
+    // the member is optional in the declaration
+    if let Some(f) = m.fns.iter().find(|f| f.name == "format_sequence_or_set_members" && f.module.starts_with("generator::typescript")) {
+        let prefix = m.consts.iter().find(|c| c.name == "INTERNAL_EXTENSION_GROUP_NAME_PREFIX").and_then(|c| lit_of(&c.expr));
+        ctx.oblige("C18.shape", "extension-group-member", true);
+        match prefix {
+            Some(Val::Str(prefix)) => {
+                let p = f.sig.inputs.iter().filter_map(|a| match a { syn::FnArg::Typed(t) => Some(tok(&t.pat)), _ => None }).next().unwrap_or("se".into());
+                let extra: Vec<String> = f.sig.inputs.iter().filter_map(|a| match a { syn::FnArg::Typed(t) => Some(tok(&t.pat)), _ => None }).skip(1).collect();
+                let mut se = BTreeMap::new();
+                se.insert("members".to_string(), Val::List(vec![member("a", "Required"), member(&format!("{}b", prefix), "Required")]));
+                se.insert("extensible".to_string(), Val::some(Val::int(1)));
+                let mut env = Env::new();
+                env.insert(p, Val::Ctor("SequenceOrSet".into(), vec![], se));
+                for x in &extra {
+                    env.insert(x.clone(), Val::Bool(false));
+                }
+                match ev.eval_fn_body(&f.block, &mut env) {
+                    Ok(Val::Str(s)) => {
+                        let compact: String = s.chars().filter(|c| !c.is_whitespace()).collect();
+                        if !compact.contains(&format!("{}b?:", prefix)) || !compact.contains("a:T") {
+                            ctx.violate("C18.shape", "object:extension-group-required", &f.file, f.line, &format!("`SEQUENCE {{ a T, ..., [[ b U ]] }}` is rendered `{}`: the extension addition group is a required member — a value without the group (every value of the first version) does not fit the declaration; the rasn backend declares it Option<Group>", compact));
+                        }
+                    }
+                    Ok(o) => ctx.fail_closed("C18.shape", &format!("[extension group member]: {}", o.show())),
+                    Err(e) => ctx.fail_closed("C18.shape", &format!("[extension group member]: {}", e)),
+                }
+            }
+            _ => ctx.fail_closed("C18.shape", "INTERNAL_EXTENSION_GROUP_NAME_PREFIX not found"),
+        }
+    }
     if let Some(f) = anchor_fn(m, ctx, "C18.shape", None, "format_choice_options", Some("typescript")) {
         let p = f.sig.inputs.iter().filter_map(|a| match a { syn::FnArg::Typed(t) => Some(tok(&t.pat)), _ => None }).next().unwrap_or("choice".into());
         for n in [1usize, 2, 3] {
